@@ -692,7 +692,12 @@ def allowed_relaxed(data):
             u = resolve(m.group(3))
             if u is not None:
                 slots.setdefault(m.group(1), set()).add(u)
-    vals = [float(x) for x in _VALUE.findall(text) if x not in (".", "-", "+")]
+    vals = []
+    for x in _VALUE.findall(text):
+        try:
+            vals.append(float(x))
+        except ValueError:          # '1.5.' after a flipped byte: not a number, names nothing
+            pass
     uns = [resolve(x[1]) for x in _UNITS.findall(text)]
     for v in vals:
         for u in uns:
